@@ -1,17 +1,17 @@
 SPECIFICATION Spec
 CONSTANTS
-  Transport = "quic"
+  Transport = "tls"
   ResidueAfterFailure = FALSE
-  ShortCookieRead = TRUE
-  DialResetsData = FALSE
-  Alpns <- AlpnsQuic
+  ShortCookieRead = FALSE
+  DialResetsData = TRUE
+  Alpns <- AlpnsTls
   Alphabet <- AlphaCore
   CutRecs <- CutCore
   MaxRecs = 4
   MaxDials = 3
   MaxCalls = 4
   MaxStore = 1
-  CtxMode = "ignored"
-  MaxStalls = 0
+  CtxMode = "abandons"
+  MaxStalls = 1
 INVARIANTS TypeOK SuccessOnlyIf KeysAgree PoolIsIssued PoolReturned Destination NoResidue
 PROPERTIES IgnoresNonCritical
